@@ -33,6 +33,8 @@ const EV_ANOMALY: i64 = 12;
 const L_START: i64 = 0;
 const L_CANCEL: i64 = 3;
 const L_FIRE: i64 = 5;
+/// the virtual clock moves half way towards the next deadline; nothing fires
+const L_TICK: i64 = 6;
 const OP_GET: i64 = 0; // a = mode (0 get, 1 try_get, 2 timeout_get(None), 3 (Some 0), 4 (Some finite)), b = remove variant
 const OP_ADD: i64 = 1; // a = oid, b = 1 add / 0 try_add
 const OP_DROP: i64 = 2;
@@ -275,6 +277,10 @@ impl World {
             }
             L_CANCEL => l[1] >= 0 && self.parked(l[1] as usize),
             L_FIRE => self.next_deadline().map(|(t, _)| t as i64 == l[1]).unwrap_or(false),
+            L_TICK => {
+                let now = self.now();
+                self.next_deadline().map(|(_, d)| d > now + Duration::from_millis(3)).unwrap_or(false)
+            }
             _ => false,
         }
     }
@@ -416,6 +422,16 @@ impl World {
                     h.abort();
                 }
             }
+            L_TICK => {
+                if let Some((_, d)) = self.next_deadline() {
+                    let now = self.now();
+                    if d > now + Duration::from_millis(3) {
+                        // whole milliseconds, so that the rounded deadlines stay what they are
+                        let half = Duration::from_millis(((d - now).as_millis() as u64) / 2);
+                        tokio::time::advance(half).await;
+                    }
+                }
+            }
             L_FIRE => {
                 if let Some((t, d)) = self.next_deadline() {
                     let _ = self.deadline.remove(&t);
@@ -471,8 +487,11 @@ fn choose(r: &mut Rng, w: &World, cap: usize) -> Option<Vec<i64>> {
             cands.push((2, vec![L_CANCEL, t as i64, 0, 0, 0]));
         }
     }
-    if let Some((t, _)) = w.next_deadline() {
+    if let Some((t, d)) = w.next_deadline() {
         cands.push((9, vec![L_FIRE, t as i64, 0, 0, 0]));
+        if d > w.now() + Duration::from_millis(3) {
+            cands.push((3, vec![L_TICK, 0, 0, 0, 0]));
+        }
     }
     let n = w.ops.len();
     if n < cap {
